@@ -126,9 +126,41 @@ class TempFile(object):
         return StrV(SFmt("s", Opaque(("saved workbook bytes",))))
 
 
+class TempDir(object):
+    """tempfile.TemporaryDirectory(): entering gives the directory's path; leaving removes everything saved below it"""
+    _n = [0]
+
+    def __init__(self):
+        TempDir._n[0] += 1
+        self.path = "/<tmpdir%d>" % TempDir._n[0]
+
+    def enter(self, I):
+        return Const(self.path)
+
+    def exit(self, I):
+        saved = I.__dict__.get("_saved_workbooks", {})
+        for k in [k for k in saved if k[0] == "const" and isinstance(k[1], str) and k[1].startswith(self.path + "/")]:
+            del saved[k]
+
+    def get_name(self, I):
+        return Const(self.path)
+
+    def m_cleanup(self, I, args, kwargs):
+        if args or kwargs:
+            raise AnalysisError("TemporaryDirectory.cleanup arguments")
+        self.exit(I)
+        return NONE
+
+
 def install(I):
     """make ``from openpyxl import Workbook; Workbook()`` produce the model"""
     def make(args, kwargs, node, env):
         return PyObjV(Workbook())
     I.x_openpyxl_Workbook = make
     I.x_tempfile_NamedTemporaryFile = lambda args, kwargs, node, env: PyObjV(TempFile())
+
+    def tmpdir(args, kwargs, node, env):
+        if args or kwargs:
+            raise AnalysisError("TemporaryDirectory arguments are not modelled")
+        return PyObjV(TempDir())
+    I.x_tempfile_TemporaryDirectory = tmpdir
